@@ -25,6 +25,11 @@ func main() {
 		fmt.Fprintln(os.Stderr, "usage: kvh <engine> [flags]")
 		os.Exit(2)
 	}
+	if os.Args[1] == "store-child" && len(os.Args) == 6 {
+		var lim int64
+		fmt.Sscan(os.Args[4], &lim)
+		os.Exit(storeChild(os.Args[2], os.Args[3], lim, os.Args[5]))
+	}
 	a := Args{engine: os.Args[1]}
 	fs := flag.NewFlagSet("kvh", flag.ExitOnError)
 	fs.Uint64Var(&a.seed, "seed", 1, "PRNG seed")
@@ -48,6 +53,8 @@ func main() {
 		res = runK8s(a)
 	case "sidecar":
 		res = runSidecar(a)
+	case "store":
+		res = runStore(a)
 	default:
 		fmt.Fprintln(os.Stderr, "unknown engine", a.engine)
 		os.Exit(2)
